@@ -44,6 +44,9 @@ def rebuild_case(draw, tier, prepopulate=False, partial_decoys=False):
                 e["decoy_kind"] = draw(st.sampled_from(["all", "all", "all", "same-first-piece", "same-tail", "one-byte"])) if partial_decoys else "all"
             if prepopulate:
                 e["pre"] = draw(st.sampled_from(["none", "none", "correct", "wrong-full", "shorter", "shorter-wrong"]))
+                if e["decoy"] is not None:
+                    # the intact copy may be missing altogether: only the decoy carries the name (C14 must hold then, too)
+                    e["real_absent"] = draw(st.sampled_from([True] + [False] * 3))
             files.append(e)
         torrents.append({"tree": t, "P": P, "creator": creator, "files": files})
     unrelated = draw(st.lists(st.tuples(placement(nsearch), trees.name_component(), st.integers(0, 3000)), max_size=3))
@@ -133,9 +136,11 @@ def build(scr, case):
         for f, e in zip(tree["files"], tor["files"]):
             name = basename_of(tree, f)
             data = sandbox.file_bytes(f)
-            placed_at[(ti, len(placed_at_idx.setdefault(ti, [])))] = _place(search, e["place"], name, data, taken)
+            idx = len(placed_at_idx.setdefault(ti, []))
             placed_at_idx[ti].append(1)
-            sources.setdefault(name, []).append(data)
+            if not e.get("real_absent"):
+                placed_at[(ti, idx)] = _place(search, e["place"], name, data, taken)
+                sources.setdefault(name, []).append(data)
             if e["decoy"] is not None:
                 kind = e.get("decoy_kind", "all")
                 dd = decoy_bytes(data, kind, tor["P"])
